@@ -273,7 +273,86 @@ class MakeChild(Unit):
         st.oblige("the child shares the parent's fluent set (defaults)", f["_fluent_set"].z == fs)
 
 
-UNITS = [GetValue(), MakeChild(_SymLimit, "any positive ancestor limit"), MakeChild(_NoLimit, "no limit")]
+class Init(Unit):
+    """UPState.__init__ called directly (the public constructor), with ANY map of fluent expressions to constants -- not only the pre-filtered map make_child passes"""
+    prop = "C36"
+    allowed_raises = ()
+
+    def __init__(self, with_father):
+        self.with_father = with_father
+        self.name = "UPState.__init__ [" + ("with a father" if with_father else "no father") + "]"
+        self.doc = ("a state built without a father stores exactly the given entries whose value differs from the fluent's default (so valuation-equal roots are equal), has no "
+                    "ancestors; under a father every given entry is stored and the ancestor count grows by one")
+
+    def target(self):
+        return _sm.UPState.__init__
+
+    replay_without_model = True      # the solvers answer `unknown` on the quantified invariant when it is false: the clause is then tried natively
+
+    def replay(self, ctx, model, obligation):
+        """directed native input for the clause the obligation names: a root given an entry AT its default and one off its default; the same under a father"""
+        from unified_planning.shortcuts import Problem, Fluent, IntType, Int
+        from unified_planning.model import UPState
+        pr = Problem("replay_init")
+        x, y = Fluent("x", IntType()), Fluent("y", IntType())
+        pr.add_fluent(x, default_initial_value=0)
+        pr.add_fluent(y, default_initial_value=0)
+        given = {x(): Int(0), y(): Int(1)}
+        root = UPState(given, pr)
+        if not self.with_father:
+            got = dict(root._values)
+            bad = got != {y(): Int(1)} or root._father is not None or root._ancestors != 0
+            return {"reproduced": bool(bad), "concrete": {"values": "{x: 0 (its default), y: 1}", "father": None}, "observed": {str(k): str(v) for k, v in got.items()}}
+        child = UPState(given, pr, _father=root)
+        got = dict(child._values)
+        bad = got != given or child._father is not root or child._ancestors != root._ancestors + 1
+        return {"reproduced": bool(bad), "concrete": {"values": "{x: 0 (its default), y: 1}", "father": "a root state"},
+                "observed": {"stored": {str(k): str(v) for k, v in got.items()}, "ancestors": child._ancestors}}
+
+    def configure(self, eng):
+        MakeChild(_SymLimit, "loop specifications").configure(eng)
+
+    def setup(self, eng, st):
+        vals = eng.fresh_of(st, Map(FN, FN, ordered=True), "values")
+        st.assume(MAXSYM >= 1)
+        k = z3.Const(fresh_name("k"), _K)
+        isf, isc = B._uf("FNode36.is_fluent_exp()", _K, z3.BoolSort()), B._uf("FNode36.is_constant()", _K, z3.BoolSort())
+        st.assume(z3.ForAll([k], z3.Implies(z3.Select(vals.has, k), z3.And(isf(k), isc(z3.Select(vals.val, k))))))      # the documented input: fluent expressions -> constants
+        me = st.alloc(Rec(_SymLimit, {}), "self")
+        fs = FS.fresh("problems_fluent_set")
+        father = ST.fresh("father") if self.with_father else None
+        if father is not None:
+            st.assume(B._uf("UPState36._ancestors", _S, z3.IntSort())(father.z) >= 0)
+        return [me, st.alloc(vals, "dict"), fs, father], {}, dict(me=me, vals=vals, fs=fs, father=father)
+
+    def post(self, eng, ctx, st, out):
+        if out[0] != "return":
+            return
+        me, src, fs, father = ctx["me"], ctx["vals"], ctx["fs"], ctx["father"]
+        rec = st.load(me)
+        f = rec.fields
+        vals = eng.deref(st, f["_values"])
+        k = z3.Const(fresh_name("k"), _K)
+        if isinstance(vals, (B.PendingEmpty, CDict)):
+            has, val = (lambda kk: z3.BoolVal(False)), (lambda kk: kk)
+        else:
+            has, val = (lambda kk: z3.Select(vals.has, kk)), (lambda kk: z3.Select(vals.val, kk))
+        sv = z3.Select(src.val, k)
+        if father is None:
+            st.oblige("without a father exactly the given entries that differ from the default are stored",
+                      z3.ForAll([k], z3.And(has(k) == z3.And(z3.Select(src.has, k), nondefault(fs.z, k, sv)), z3.Implies(has(k), val(k) == sv))))
+            st.oblige("no father recorded, no ancestors", z3.And(z3.BoolVal(f["_father"] is None), zint(f["_ancestors"]) == 0))
+        else:
+            st.oblige("under a father every given entry is stored", z3.ForAll([k], z3.And(has(k) == z3.Select(src.has, k), z3.Implies(has(k), val(k) == sv))))
+            fz = f["_father"]
+            st.oblige("the father is recorded and the ancestor count grows by one",
+                      z3.And(z3.BoolVal(isinstance(fz, SRef)) if not isinstance(fz, SRef) else fz.z == father.z,
+                             zint(f["_ancestors"]) == B._uf("UPState36._ancestors", _S, z3.IntSort())(father.z) + 1))
+        st.oblige("the fluent set is the one given", z3.BoolVal(isinstance(f["_fluent_set"], SRef)) if not isinstance(f["_fluent_set"], SRef) else f["_fluent_set"].z == fs.z)
+        st.oblige("the hash cache starts empty", z3.BoolVal(f.get("_hash", "?") is None))
+
+
+UNITS = [GetValue(), MakeChild(_SymLimit, "any positive ancestor limit"), MakeChild(_NoLimit, "no limit"), Init(False), Init(True)]
 
 
 def bounded(tier, seed):
